@@ -569,9 +569,6 @@ func (p *prober) walk(limit, mode string) (all []string, firstEmptyNoCont bool, 
 			}
 			break
 		}
-		if len(pg.refs) > 0 && pg.cont != pg.refs[len(pg.refs)-1] {
-			return all, false, mm(kind+"|continue-token", "%s: continueAfter %s is not the last blob of the page %s", what, p.name(pg.cont), p.short(pg.blobs))
-		}
 		if pg.cont <= after {
 			return all, false, mm(kind+"|continue-token", "%s: continueAfter %s does not advance beyond %s", what, p.name(pg.cont), p.name(after))
 		}
